@@ -245,13 +245,13 @@ impl Node {
             setup.id,
             setup.cfg.clone(),
             SimRng::new(setup.rng_seed),
-            AnyCodec::new(setup.codec),
+            AnyCodec::for_instance(setup.codec, setup.rng_seed),
             handler,
         );
         let twin = if setup.acc_twin {
             let (h2, _log2) = SimHandler::new(setup.hcfg);
             Some((
-                Foca::with_custom_broadcast(setup.id, setup.cfg.clone(), SimRng::new(setup.rng_seed), AnyCodec::new(setup.codec), h2),
+                Foca::with_custom_broadcast(setup.id, setup.cfg.clone(), SimRng::new(setup.rng_seed), AnyCodec::for_instance(setup.codec, setup.rng_seed), h2),
                 foca::AccumulatingRuntime::new(),
             ))
         } else {
